@@ -78,7 +78,7 @@ Fixpoint sse_loop (s : bytes) (cur : bytes) (acc : rows) : res rows :=
       else sse_loop tl (b :: cur) acc
   end.
 Definition sse_payloads (s : bytes) : res rows := sse_loop s [] [].
-Definition sse_count (s : bytes) : res rows := p <- sse_payloads s ;; Ok [[lenN p]].
+Definition sse_count (s : bytes) : res rows := p <- sse_payloads s ;; Ok [[N.of_nat (length p)]].
 
 (* ---- NAT ALG: pass-through when the oracle (regexp / header match) modified nothing *)
 Definition alg_pass (modified : N) (d : bytes) : res rows := if modified =? 0 then Ok [d] else Ok [].
